@@ -2,12 +2,15 @@ package main
 
 import (
 	"fmt"
+	"sort"
 	"strconv"
 	"strings"
+	"sync"
 
 	"verifharness/hx"
 
 	"github.com/iotaledger/hive.go/runtime/event"
+	"github.com/iotaledger/hive.go/runtime/workerpool"
 )
 
 // The `ar` section: the arity twins Event, Event1 … Event9 of events.go.  One case works with events of one
@@ -17,11 +20,18 @@ import (
 // machine on them):
 //
 //	ar arity <N>           -> ok
-//	ar new <max>           -> e<i>
-//	ar hook <e> <max>      -> h<i>         (synchronous hooks)
+//	ar new <max> [pool]    -> e<i>         (pool: WithWorkerPool(P) on the event)
+//	ar hook <e> <max> [sync|pool|inplace]  -> h<i>   (sync: no pool option, the event's pool applies; pool:
+//	                          WithWorkerPool(Q), Q != P; inplace: WithWorkerPool(nil))
 //	ar unhook <h>
-//	ar trigger <e> <digits>   -> sync [h:digits ...] pool []
+//	ar trigger <e> <digits>   -> sync [h:digits ...] pool [h:digits ...]
 //	ar link <src> <tgt> | ar unlink <src> | ar tcount <e>
+//
+// P and Q are single-worker pools.  During a Trigger P's worker is held by a gate task, so that what has run when
+// Trigger returns (on the caller's goroutine: synchronous), what has run when Q has drained (the hooks with their own
+// pool) and what runs only after the gate is released (everything routed to the event's pool, including the nested
+// Trigger of an event linked to a pooled target) are three separately observed buckets; the Go oracle `pool-routing`
+// judges them, the Lean event machine judges synchronous vs pooled.
 
 type arEvent interface {
 	Hook(cb func([]int), opts ...event.Option) func()
@@ -36,13 +46,31 @@ type arHook struct {
 	max              uint64
 	count            int
 	alive            bool
+	pool             int // 0 no option (the event's pool applies), 1 own pool Q, 2 forced in place
 }
 
 type arEv struct {
-	max   uint64
-	count int
-	link  *arHook
+	max    uint64
+	count  int
+	link   *arHook
+	pooled bool
 }
+
+// arCall is one recorded invocation: which hook, what it received, on the Trigger caller's goroutine or not.
+type arCall struct {
+	h     int
+	s     string
+	async bool
+}
+
+// buckets of the expected / observed invocations of one Trigger
+const (
+	arSync = iota // ran on the caller's goroutine before Trigger returned
+	arOwn         // ran on the hook's own pool Q (drained while the event pool P was still gated)
+	arLate        // ran only after P's gate was released
+)
+
+type arWant struct{ h, bucket int }
 
 type arWorld struct {
 	oev     []*arEv
@@ -51,8 +79,20 @@ type arWorld struct {
 	n       int
 	events  []arEvent
 	unhooks []func()
-	log     []string
+	mu      sync.Mutex
+	caller  int64
+	log     []arCall
 	bad     []string
+	poolP   *workerpool.WorkerPool
+	poolQ   *workerpool.WorkerPool
+}
+
+func (a *arWorld) finish() {
+	for _, p := range []*workerpool.WorkerPool{a.poolP, a.poolQ} {
+		if p != nil {
+			p.Shutdown() // not waiting for ShutdownComplete (C16's subject)
+		}
+	}
 }
 
 func encode(a []int) string {
@@ -67,8 +107,9 @@ func encode(a []int) string {
 	return b.String()
 }
 
-// expect: the invocations one Trigger(e) must produce, in order (handles of user hooks).
-func (a *arWorld) expect(e int, out *[]int) {
+// expect: the invocations one Trigger(e) must produce, in order (handles of user hooks), each with the bucket
+// it must be observed in; late: this Trigger itself runs on the event pool of a pooled link target.
+func (a *arWorld) expect(e int, late bool, out *[]arWant) {
 	oe := a.oev[e]
 	oe.count++
 	if oe.max != 0 && uint64(oe.count) > oe.max {
@@ -85,10 +126,19 @@ func (a *arWorld) expect(e int, out *[]int) {
 
 			continue
 		}
+		bucket := arSync
+		switch {
+		case late:
+			bucket = arLate
+		case h.pool == 1:
+			bucket = arOwn
+		case h.pool == 0 && oe.pooled:
+			bucket = arLate
+		}
 		if h.link >= 0 {
-			a.expect(h.link, out)
+			a.expect(h.link, bucket != arSync, out)
 		} else {
-			*out = append(*out, h.handle)
+			*out = append(*out, arWant{h.handle, bucket})
 		}
 	}
 }
@@ -122,7 +172,11 @@ func (w *world) execAR(f []string) string {
 	}
 	switch f[0] {
 	case "new":
-		m, err := strconv.ParseUint(strings.Join(f[1:], " "), 10, 64)
+		pooled := len(f) == 3 && f[2] == "pool"
+		if len(f) != 2 && !pooled {
+			return "bad-op"
+		}
+		m, err := strconv.ParseUint(f[1], 10, 64)
 		if err != nil {
 			return "bad-op"
 		}
@@ -130,13 +184,19 @@ func (w *world) execAR(f []string) string {
 		if m > 0 {
 			opts = append(opts, event.WithMaxTriggerCount(m))
 		}
+		if pooled {
+			if a.poolP == nil {
+				a.poolP = workerpool.New("c15arP", workerpool.WithWorkerCount(1)).Start()
+			}
+			opts = append(opts, event.WithWorkerPool(a.poolP))
+		}
 		a.events = append(a.events, arNew[a.n](opts...))
-		a.oev = append(a.oev, &arEv{max: m})
+		a.oev = append(a.oev, &arEv{max: m, pooled: pooled})
 
 		return fmt.Sprintf("e%d", len(a.events)-1)
 	case "hook":
 		e, ok := num(1)
-		if !ok || len(f) != 3 || e >= len(a.events) {
+		if !ok || (len(f) != 3 && len(f) != 4) || e >= len(a.events) {
 			return "bad-op"
 		}
 		m, err := strconv.ParseUint(f[2], 10, 64)
@@ -147,14 +207,34 @@ func (w *world) execAR(f []string) string {
 		if m > 0 {
 			opts = append(opts, event.WithMaxTriggerCount(m))
 		}
+		pool := 0
+		if len(f) == 4 {
+			switch f[3] {
+			case "sync":
+			case "pool":
+				pool = 1
+				if a.poolQ == nil {
+					a.poolQ = workerpool.New("c15arQ", workerpool.WithWorkerCount(1)).Start()
+				}
+				opts = append(opts, event.WithWorkerPool(a.poolQ))
+			case "inplace":
+				pool = 2
+				opts = append(opts, event.WithWorkerPool(nil))
+			default:
+				return "bad-op"
+			}
+		}
 		h := len(a.unhooks)
 		a.unhooks = append(a.unhooks, a.events[e].Hook(func(got []int) {
+			async := goid() != a.caller
+			a.mu.Lock()
+			defer a.mu.Unlock()
 			if len(got) != a.n {
 				a.bad = append(a.bad, fmt.Sprintf("hook %d received %d arguments", h, len(got)))
 			}
-			a.log = append(a.log, fmt.Sprintf("%d:%s", h, encode(got)))
+			a.log = append(a.log, arCall{h, encode(got), async})
 		}, opts...))
-		oh := &arHook{ev: e, handle: h, link: -1, max: m, alive: true}
+		oh := &arHook{ev: e, handle: h, link: -1, max: m, alive: true, pool: pool}
 		a.ohooks = append(a.ohooks, oh)
 		a.ouser = append(a.ouser, oh)
 
@@ -192,34 +272,107 @@ func (w *world) execAR(f []string) string {
 				args = append(args, int(c-'0'))
 			}
 		}
+		api := fmt.Sprintf("event.Event%d.Trigger", a.n)
+		a.mu.Lock()
 		a.log = nil
+		a.caller = goid()
+		a.mu.Unlock()
+		// hold the event pool's only worker while Trigger runs
+		var gate chan struct{}
+		if a.poolP != nil {
+			gate = make(chan struct{})
+			started := make(chan struct{})
+			a.poolP.Submit(func() { close(started); <-gate })
+			if !guarded(func() { <-started }) {
+				w.fail("hang", "the gate task of the event pool did not start", map[string]string{"oracle": "hang", "api": "workerpool.Submit", "mode": "arity-twins"})
+			}
+		}
+		drain := func(p *workerpool.WorkerPool) {
+			if p != nil && !guarded(func() { p.PendingTasksCounter.WaitIsZero() }) {
+				w.fail("hang", "worker pool did not drain", map[string]string{"oracle": "hang", "api": "workerpool.PendingTasksCounter", "mode": "arity-twins"})
+			}
+		}
 		a.events[e].Trigger(args)
+		a.mu.Lock()
+		nRet := len(a.log)
+		a.mu.Unlock()
+		drain(a.poolQ)
+		a.mu.Lock()
+		nOwn := len(a.log)
+		a.mu.Unlock()
+		if gate != nil {
+			close(gate)
+		}
+		for i := 0; i < 3; i++ { // a nested Trigger running on P may submit to Q and (through further links) to P again
+			drain(a.poolP)
+			drain(a.poolQ)
+		}
+		a.mu.Lock()
+		log := append([]arCall(nil), a.log...)
+		bad := a.bad
+		a.bad = nil
+		a.mu.Unlock()
 		// the property for the arguments, independent of Lean: every invocation received exactly the call's arguments, in order
-		for _, l := range a.log {
-			if !strings.HasSuffix(l, ":"+f[2]) {
-				w.fail("trigger-exactly-once", fmt.Sprintf("Event%d.Trigger(%s): a hook received %s", a.n, f[2], l),
-					map[string]string{"oracle": "arguments", "api": fmt.Sprintf("event.Event%d.Trigger", a.n), "mode": "arity-twins"})
+		for _, c := range log {
+			if c.s != f[2] {
+				w.fail("trigger-exactly-once", fmt.Sprintf("Event%d.Trigger(%s): hook %d received %s", a.n, f[2], c.h, c.s),
+					map[string]string{"oracle": "arguments", "api": api, "mode": "arity-twins"})
 
 				break
 			}
 		}
-		for _, b := range a.bad {
+		for _, b := range bad {
 			w.fail("trigger-exactly-once", b, map[string]string{"oracle": "arguments", "api": "event.Trigger", "mode": "arity-twins"})
 		}
-		a.bad = nil
-		var want []int
-		a.expect(e, &want)
-		wantS := make([]string, len(want))
-		for i, h := range want {
-			wantS[i] = fmt.Sprintf("%d:%s", h, f[2])
+		// observed buckets: synchronous calls in order; the others as sorted sets
+		var got [3][]int
+		for i, c := range log {
+			switch {
+			case !c.async && i < nRet:
+				got[arSync] = append(got[arSync], c.h)
+			case !c.async:
+				got[arLate] = append(got[arLate], -1-c.h) // on the caller's goroutine after Trigger returned: impossible
+			case i < nOwn:
+				got[arOwn] = append(got[arOwn], c.h)
+			default:
+				got[arLate] = append(got[arLate], c.h)
+			}
 		}
-		if strings.Join(wantS, " ") != strings.Join(a.log, " ") {
-			w.fail("trigger-exactly-once", fmt.Sprintf("Event%d.Trigger(e%d,%s): invocations [%s], the attached hooks within their limits are [%s]", a.n, e, f[2], strings.Join(a.log, " "), strings.Join(wantS, " ")),
-				map[string]string{"oracle": "sync-calls", "api": fmt.Sprintf("event.Event%d.Trigger", a.n), "mode": "arity-twins"})
+		var wantAll []arWant
+		a.expect(e, false, &wantAll)
+		var want [3][]int
+		for _, x := range wantAll {
+			want[x.bucket] = append(want[x.bucket], x.h)
+		}
+		for b := arOwn; b <= arLate; b++ {
+			sort.Ints(got[b])
+			sort.Ints(want[b])
+		}
+		if fmt.Sprint(got[arSync]) != fmt.Sprint(want[arSync]) {
+			w.fail("trigger-exactly-once", fmt.Sprintf("Event%d.Trigger(e%d,%s): hooks invoked synchronously, in this order, when Trigger returned: %v; the attached synchronous hooks within their limits are %v", a.n, e, f[2], got[arSync], want[arSync]),
+				map[string]string{"oracle": "sync-calls", "api": api, "mode": "arity-twins"})
+		}
+		if fmt.Sprint(got[arOwn]) != fmt.Sprint(want[arOwn]) || fmt.Sprint(got[arLate]) != fmt.Sprint(want[arLate]) {
+			w.fail("trigger-exactly-once", fmt.Sprintf("Event%d.Trigger(e%d,%s): hooks run by the hooks' own pool while the event's pool was held: %v (expected %v); hooks run only after the event's pool was released: %v (expected %v)",
+				a.n, e, f[2], got[arOwn], want[arOwn], got[arLate], want[arLate]),
+				map[string]string{"oracle": "pool-routing", "api": api, "mode": "arity-twins"})
+		}
+		if len(got[arOwn])+len(got[arLate]) > 0 {
+			w.count(fmt.Sprintf("ar:pooled-trigger:arity%d", a.n))
 		}
 		w.res.nontrivial = true
+		syncS := make([]string, 0, len(got[arSync]))
+		for _, h := range got[arSync] {
+			syncS = append(syncS, fmt.Sprintf("%d:%s", h, f[2]))
+		}
+		pooled := append(append([]int(nil), got[arOwn]...), got[arLate]...)
+		sort.Ints(pooled)
+		poolS := make([]string, 0, len(pooled))
+		for _, h := range pooled {
+			poolS = append(poolS, fmt.Sprintf("%d:%s", h, f[2]))
+		}
 
-		return "sync [" + strings.Join(a.log, " ") + "] pool []"
+		return "sync [" + strings.Join(syncS, " ") + "] pool [" + strings.Join(poolS, " ") + "]"
 	case "link":
 		s, ok1 := num(1)
 		t, ok2 := num(2)
@@ -263,7 +416,7 @@ func genAR(rng *hx.Rng, n int) []string {
 	ops := []string{fmt.Sprintf("ar arity %d", n)}
 	ne := 2 + rng.Intn(2)
 	for i := 0; i < ne; i++ {
-		ops = append(ops, fmt.Sprintf("ar new %s", hx.Pick(rng, []string{"0", "0", "2", "5"})))
+		ops = append(ops, fmt.Sprintf("ar new %s%s", hx.Pick(rng, []string{"0", "0", "2", "5"}), hx.Pick(rng, []string{"", "", " pool"})))
 	}
 	args := func() string {
 		if n == 0 {
@@ -281,7 +434,7 @@ func genAR(rng *hx.Rng, n int) []string {
 	for i, steps := 0, 10+rng.Intn(12); i < steps; i++ {
 		switch x := rng.Intn(100); {
 		case x < 30 || hooks == 0:
-			ops = append(ops, fmt.Sprintf("ar hook %d %s", rng.Intn(ne), hx.Pick(rng, []string{"0", "0", "1", "3"})))
+			ops = append(ops, fmt.Sprintf("ar hook %d %s%s", rng.Intn(ne), hx.Pick(rng, []string{"0", "0", "1", "3"}), hx.Pick(rng, []string{"", "", " sync", " pool", " inplace"})))
 			hooks++
 		case x < 38:
 			ops = append(ops, fmt.Sprintf("ar unhook %d", rng.Intn(hooks)))
